@@ -2297,6 +2297,11 @@ def get_event_from_element(
             if element["op"] == "match":
                 # Delete flow reference from event since it is only a helper object
                 flow_event.flow = None
+                # Flow parameters that are not mentioned in the statement do not
+                # take part in the matching (partial match)
+                for param in flow_config.parameters:
+                    if param.name not in flow_event_arguments:
+                        flow_event.arguments.pop(param.name, None)
             return flow_event
         elif element_spec.spec_type == SpecType.ACTION:
             # Action object
